@@ -35,6 +35,7 @@ META = {
                 "the contents of records and tables (abstract batches: sequence + count; C04.b/C15/C16 decide the codecs)",
                 "byte-exact crash images and kill points inside ldb_versions_apply / ldb_set_current_file (C02/C05.b/C17)",
                 "a non-table file that carries the number of a table the version expects hides the missing table from ldb_recover's check (same in LevelDB); excluded by the one-counter file-number discipline (C03.e)"],
+    "notes": ["file numbers are unique per file type only: ldb_versions_recover reuses the recorded next-file number for the new MANIFEST, and a level-0 table written while replaying an early log can receive the number of a later, not yet registered log (names differ by suffix; same in LevelDB). The obligations therefore require 'new log number above every replayed log and every recovered table' only for a NEWLY allocated log, not for a reused last log."],
     "models": ["harness/dbimpl/world.h ghost mutex/condvar (ldb_mutex_assert_held re-enabled)",
                "harness/dbimpl/recover_world.h: encoded file names + stubbed filename.c API; symbolic directory listings; ldb_versions_recover/add_files/apply/new_file_number/mark_file_number by contract; log reader as a record source with corruption reports; abstract batches; single-object memtable/file/writer models with lifetime monitors; small abstract rb_set64; every env call with a symbolic status; static db object instead of the heap",
                "ldb_array_sort inside dbimpl/recover.c: compare-exchange network over the caller's comparison (the real compare_ascending); the real quicksort is decided separately by dbimpl/array_sort.c",
